@@ -29,10 +29,89 @@ def configs(tier):
   return out
 
 
+def burst(n_waiters, mx):
+  """Scale: `mx` requests hold all connections, n_waiters more are queued; the connections answer every request they are
+  given *synchronously* (inside AsyncProcessRequest), so completing the first requests sets off a chain in which each release
+  starts the next waiter.  Every request must be answered exactly once, in FIFO order, and the pool must keep its capacity."""
+  import gevent
+  from scales.constants import SinkProperties
+  from scales.message import MethodCallMessage, MethodReturnMessage
+  from scales.pool.watermark import WatermarkPoolSink
+  from scales.sink import ClientMessageSinkStack
+  from .. import stubs, vloop, world
+  world.reset()
+  lp = vloop.loop()
+  reg = stubs.Registry()
+  held = {}
+  order = []
+  sync = [False]
+
+  def on_request(ch, rid, sink_stack, msg):
+    order.append(rid)
+    if sync[0]:
+      sink_stack.AsyncProcessResponseMessage(MethodReturnMessage(return_value='r%d' % rid))
+    else:
+      held[rid] = sink_stack
+  reg.on_request = on_request
+  builder = WatermarkPoolSink.Builder(min_watermark=0, max_watermark=mx, max_queue_len=n_waiters)
+  builder.next_provider = stubs.StubProvider(reg)
+  pool = builder.CreateSink({SinkProperties.Endpoint: stubs.make_endpoint(0), SinkProperties.Label: 'svc'})
+  term = stubs.make_terminal_class()()
+  pool.Open()
+  vloop.run_ready()
+  total = mx + n_waiters
+  for rid in range(1, total + 1):
+    msg = MethodCallMessage(None, 'm', (), {})
+    msg.properties['__rid'] = rid
+    st = ClientMessageSinkStack()
+    st.Push(term, rid)
+    gevent.spawn(pool.AsyncProcessRequest, st, msg, None, {})
+  vloop.run_ready()
+  viol = []
+  if sorted(held) != list(range(1, mx + 1)):
+    viol.append('with max=%d and %d requests, the requests holding a connection are %r' % (mx, total, sorted(held)[:10]))
+  sync[0] = True
+  raised = []
+  for rid in sorted(held):
+    try:
+      held[rid].AsyncProcessResponseMessage(MethodReturnMessage(return_value='r%d' % rid))
+    except Exception as e:  # noqa  (in the real stack this unwinds into the transport's reply greenlet)
+      raised.append(type(e).__name__)
+    vloop.run_ready()
+  vloop.run_ready()
+  answered = [rid for rid in range(1, total + 1) if len(term.responses.get(rid, [])) == 1 and term.responses[rid][0][1].error is None]
+  if len(answered) != total:
+    missing = [rid for rid in range(1, total + 1) if rid not in answered]
+    viol.append('%d of %d requests were not answered exactly once with their reply (first: %r; delivering a reply raised %r; loop errors: %r)'
+                % (len(missing), total, missing[:5], raised[:2], [(e[1], str(e[2])[:60]) for e in lp.errors[:2]]))
+  elif order != list(range(1, total + 1)):
+    viol.append('queued requests were not started in arrival order: %r ...' % (order[:12],))
+  # capacity is intact: a further burst of max requests gets max connections at once
+  n0 = len(order)
+  sync[0] = False
+  for rid in range(total + 1, total + mx + 1):
+    msg = MethodCallMessage(None, 'm', (), {})
+    msg.properties['__rid'] = rid
+    st = ClientMessageSinkStack()
+    st.Push(term, rid)
+    gevent.spawn(pool.AsyncProcessRequest, st, msg, None, {})
+  vloop.run_ready()
+  if len(order) - n0 != mx:
+    viol.append('after the burst drained, %d new requests got %d connections: capacity leaked' % (mx, len(order) - n0))
+  return {'n': total, 'viol': [{'clause': 'C07.burst', 'message': 'max=%d, %d queued requests answered synchronously: %s' % (mx, n_waiters, m),
+                                'sig': {'waiters': n_waiters}} for m in viol[:1]]}
+
+
 def main(tier, seed):
   rep = Report(PROP, tier, seed, 'model_checking')
   pool = bfs.make_pool()
   try:
+    from .. import explore
+    sizes = [(n, mx) for n in ((1, 2, 5, 20, 150, 1200) if tier == 'quick' else (1, 2, 3, 5, 10, 20, 50, 150, 400, 1200, 5000)) for mx in (1, 2)]
+    outs = explore.pmap('vt.checks.c07', 'burst', sizes, pool, seed)
+    for o in outs:
+      rep.add_violations(o['viol'])
+    rep.part('bursts of queued requests answered synchronously', engine='E (scale)', sizes=sizes, requests=sum(o['n'] for o in outs))
     for name, params, depth in configs(tier):
       res = bfs.run_bfs('vt.poolharness', 'expand', params, depth, pool, seed=seed, stop_on_violation=False)
       rep.add_bfs(name, res, depth, params=params, replay_base={'params': params})
